@@ -165,7 +165,7 @@ def state_key(spec):
 
 
 def budget(tier):
-    return {"timeout": 600.0 if tier == "quick" else 2400.0, "per_path": 30.0}
+    return {"timeout": 300.0 if tier == "quick" else 2400.0, "per_path": 30.0}
 
 
 META = {
